@@ -271,8 +271,8 @@ func c06HostileTypeNames(rng *rand.Rand, ts string) []string {
 	if i, j := strings.IndexByte(ts, '('), strings.LastIndexByte(ts, ')'); i >= 0 && j > i {
 		b := []byte(ts)
 		b[i], b[j] = ')', '('
-		out = append(out, string(b))                 // first ( and last ) exchanged
-		out = append(out, ts[:j], ts[:i]+ts[i+1:])    // unbalanced
+		out = append(out, string(b))                     // first ( and last ) exchanged
+		out = append(out, ts[:j], ts[:i]+ts[i+1:])       // unbalanced
 		out = append(out, ts+")", ts[:i+1]+"("+ts[i+1:]) // one too many
 		out = append(out, ts[:i]+"()", ts[:i]+")(", ts[:i]+"(,)", ts[:i]+"( )")
 		swap := strings.NewReplacer("(", ")", ")", "(").Replace(ts)
